@@ -56,7 +56,7 @@ def gen_calendar(rng, tidy=True):
         if meth == "REPLY":
             body.append("REQUEST-STATUS:%s" % rng.choice(["2.0;Success", "5.1;Service unavailable", "3.1;Invalid property value"]))
         if rng.random() < 0.15:
-            body.append("SUMMARY:" + "x" * rng.choice([200, 600, 900]))            # long but within the stash
+            body.append("SUMMARY:" + "x" * rng.choice([200, 600, 900]))            # long; the stash grows in steps of 1 KiB doubled
         if rng.random() < 0.15:
             ev += ["BEGIN:VALARM", "ACTION:DISPLAY", "TRIGGER:-PT5M", "END:VALARM"]
         rng.shuffle(body)
@@ -67,7 +67,7 @@ def gen_calendar(rng, tidy=True):
     text = nl.join(folded) + nl
     cls = set()
     if any(len(f) + len(nl) >= 1024 for f in folded):
-        # the stash rule counts the raw bytes of what the chunk holds of a line, fold bytes included (finding D18d)
+        # lines that make the parser's stash grow (once a fixed 1 KiB: findings D18d, D191)
         cls.add("long-line")
     if not tidy:
         r = rng.random()
@@ -78,7 +78,7 @@ def gen_calendar(rng, tidy=True):
             text = text + gen_calendar(rng, True)[0]
             cls.add("after-end")
         elif r < 0.65:
-            text = text.replace("SUMMARY:", "SUMMARY:" + "y" * rng.choice([1020, 1024, 1500, 3000]), 1)
+            text = text.replace("SUMMARY:", "SUMMARY:" + "y" * rng.choice([1020, 1024, 1500, 3000, 9000]), 1)
             cls.add("long-line")
         elif r < 0.8:
             if rng.random() < 0.5:
@@ -206,7 +206,7 @@ def run(ctx):
         "traces_validated_against_impl": len(ops) - len(corr),
         "rule": "generated calendars (1-5 VEVENT/VTODO, 1-8 properties each from the full field list, rules, folds with SP/TAB, LF or "
                 "CRLF, nested VALARM/VTIMEZONE, calendar-level defaults, METHOD variants, values up to 900 bytes); a third of them "
-                "malformed (backslash escapes, a second calendar behind the first, lines beyond the 1 KiB stash, empty lines, "
+                "malformed (backslash escapes, a second calendar behind the first, lines of 1 to 9 KiB (the stash has to grow), empty lines, "
                 "truncation, random byte damage); each fed whole, byte-wise, in 7/64/4096-byte pieces, split in two at "
                 + ("every position" if thorough else "25 sampled positions") + ", in random pieces, and with an empty push behind the data (echsd's end of input); non-trivial = every run; "
                 "distinct = distinct (input, chunking)",
